@@ -416,6 +416,9 @@ def run(ctx):
             ctx.ob("R20.4", "%s|%s" % (fn.name, re.sub(r"\s+", "", show(call))), ok, fn.loc(call), desc)
     ctx.floor("R20.4", "judged string-position sites in interrogatedb", n_sites, 2)
 
+    # ------------------------------------------------------------- R20.8
+    _exact_match(ctx)
+
     # ------------------------------------------------------------- R20.7 = R13.2
     ctx.rule("R20.7", "by-name lookups are exact only if the name tables are rebuilt after every load: merge_from resets the freshness word after its last mutation, lookup() refreshes exactly the stale table (= R13.2)")
     from .C13 import cache_rules
@@ -562,3 +565,115 @@ def _interface(ctx, positional):
             ctx.ob("R20.6", "%s|%s" % (fn.name, pname.split("::")[-1]), sz == cont, fn.loc(),
                    "%s counts %s; %s subscripts %s" % (short, sz, pname.split("::")[-1], cont))
     ctx.floor("R20.6", "count/accessor pairs", pairs, 15)
+
+
+
+def _exact_match(ctx):
+    """R20.8: `unknown names return 0` needs the hit branch of the unique-name bisection to be reached only when the
+    stored name and the query are the same string, not when one is a prefix of the other."""
+    from . import gates as G
+    db = ctx.db
+    ctx.rule("R20.8", "binary_search_wrapper_hash returns an entry's index only behind whole-string equality of the stored name and the query (`!(a < b) && !(b < a)`, `a == b`, strcmp/compare(...) == 0); no length-limited comparison decides a hit")
+    fn = db.fn("InterrogateDatabase::binary_search_wrapper_hash")
+    key = [p for p in fn.params if "string" in p["t"]]
+    if not key:
+        ctx.broken("binary_search_wrapper_hash: string parameter not found")
+    kd = key[0]["d"]
+    # locals that are copies of <entry>->name
+    name_locals = set()
+    for st in fn.walk():
+        if st.get("k") == "decls":
+            for d in st["d"]:
+                if d.get("init") is not None and any((field_of(x) or "").endswith("InterrogateUniqueNameDef::name") for x in walk(d["init"])) and "string" in d.get("t", ""):
+                    name_locals.add(d["d"])
+
+    cmp_locals = {}
+    for st in fn.walk():
+        if st.get("k") == "decls":
+            for d in st["d"]:
+                i = strip_casts(peel(d.get("init"))) if d.get("init") is not None else None
+                if i is not None and i.get("k") == "call" and callee_short(i) in ("strcmp", "compare") and d.get("t") == "int":
+                    # never reassigned
+                    if not any(assigned_target(x) and (local_ref(assigned_target(x)[0]) or {}).get("d") == d["d"] for x in fn.walk()):
+                        cmp_locals[d["d"]] = i
+
+    def is_key(n):
+        n = strip_casts(peel(n))
+        if n is not None and n.get("k") == "call" and callee_short(n) in ("c_str", "data") and "this" in n:
+            n = strip_casts(peel(n["this"]))
+        return (local_ref(n) or {}).get("d") == kd
+
+    def is_name(n):
+        n = strip_casts(peel(n))
+        if n is None:
+            return False
+        if n.get("k") == "call" and callee_short(n) in ("c_str", "data") and "this" in n:
+            n = strip_casts(peel(n["this"]))
+        if n.get("k") == "ctor" and len(n.get("a", [])) >= 1:
+            n = strip_casts(peel(n["a"][0]))
+        return (local_ref(n) or {}).get("d") in name_locals or (field_of(n) or "").endswith("InterrogateUniqueNameDef::name")
+
+    def rel(atom, truth):
+        """-> ('lt', 'nk'|'kn', holds?) / ('eq', holds?)"""
+        c = G.cmp_atom(atom)
+        if not c:
+            return None
+        op, a, b = c
+        if not truth:
+            op = G.NEG[op]
+        # strcmp(a, b) <op> 0  /  a.compare(b) <op> 0   (whole-string forms only)
+        for u, v, o in ((a, b, op), (b, a, G.SWAP[op])):
+            uu = strip_casts(peel(u))
+            if uu is not None and uu.get("k") == "ref" and uu.get("d") in cmp_locals:
+                uu = cmp_locals[uu["d"]]       # int cmp = strcmp(...); if (cmp < 0) ...
+            if uu is not None and uu.get("k") == "call" and const_int(v) == 0:
+                nm = callee_short(uu)
+                args = uu.get("a", [])
+                x = y = None
+                if nm == "strcmp" and len(args) == 2:
+                    x, y = args
+                elif nm == "compare" and "this" in uu and len([q for q in args if q.get("k") != "defarg"]) == 1:
+                    x, y = uu["this"], args[0]
+                if x is not None:
+                    if is_name(x) and is_key(y):
+                        return o, "nk"
+                    if is_key(x) and is_name(y):
+                        return o, "kn"
+                return None
+        if is_name(a) and is_key(b):
+            return op, "nk"
+        if is_key(a) and is_name(b):
+            return op, "kn"
+        return None
+
+    def fact(kind):
+        def holds(atom, truth):
+            r = rel(atom, truth)
+            if not r:
+                return False
+            op, order = r
+            if order == "kn":
+                op = G.SWAP[op]        # now: name <op> key
+            if kind == "eq":
+                return op == "=="
+            if kind == "name>=key":
+                return op in (">=", "==", ">")
+            if kind == "name<=key":
+                return op in ("<=", "==", "<")
+            return False
+        return holds
+    hits = [r for r in fn.walk() if r.get("k") == "ret" and r.get("e") is not None and any((field_of(x) or "").endswith("index_offset") for x in walk(r["e"]))]
+    if not hits:
+        ctx.broken("binary_search_wrapper_hash: the hit return (…->index_offset) not found")
+    for r in hits:
+        eq = G.gated(fn, r, G.edges_where(fn, fact("eq")))
+        ge = G.gated(fn, r, G.edges_where(fn, fact("name>=key")))
+        le = G.gated(fn, r, G.edges_where(fn, fact("name<=key")))
+        ok = eq or (ge and le)
+        ctx.ob("R20.8", "binary_search_wrapper_hash|hit-only-on-equal-names", ok, fn.loc(r),
+               "`%s` is %sreached only when the stored name equals the query as whole strings" % (show(r), "" if ok else "NOT "))
+    limited = [c for c in fn.walk() if c.get("k") == "call" and (callee_short(c) in ("strncmp", "memcmp", "strncasecmp", "substr") or
+               (callee_short(c) == "compare" and len([q for q in c.get("a", []) if q.get("k") != "defarg"]) > 1))]
+    ctx.ob("R20.8", "binary_search_wrapper_hash|no-length-limited-comparison", not limited, fn.loc(limited[0]) if limited else fn.loc(),
+           "length-limited comparisons in the bisection: %s" % ([show(c)[:50] for c in limited] or "none"))
+
